@@ -348,3 +348,12 @@ class FuncT(Type):
         from .interp import UFunc
 
         return UFunc(name, self.result), []
+
+
+class StrDictT(Type):
+    """dict[str, int] of unknown content (a vocabulary's token -> id map)"""
+
+    def fresh(self, name):
+        from .values import SDict
+
+        return SDict.fresh(name), []
